@@ -68,18 +68,14 @@ def _has_atom_ids(sc):
 
 
 SIGNATURES = {
-    # D31: write_gro lists atoms in NODE order, the ITP / PDB writers in ATOM-ID order
-    'D31': lambda kind, sc: sc.get('why') in GRO_CLAUSES and _has_atom_ids(sc),
     # D32: names given by the caller: one name for molecules with different topologies is written without complaint
-    'D32': lambda kind, sc: (sc.get('why') in AGREE_CLAUSES and 'random' in sc
+    'D32': lambda kind, sc: (sc.get('why') == 'same-name-for-molecules-with-different-topologies' and 'random' in sc
                              and bool(sc['random'].get('caller_names'))
                              and len(set(sc['random']['caller_names'])) < len(sc['random']['caller_names'])),
 }
 # findings of this driver that wait for the lead's decision: while known_findings.json has no entry with the id, a scenario
 # matching SIGNATURES[id] is printed as a NOTE and counted in the evidence, not reported as a violation
 PENDING = {
-    'D31': 'vermouth.gmx.gro.write_gro lists atoms in node order while the ITP and PDB writers follow the atom ids: the k-th '
-           'GRO record is not the k-th ITP atom (library writer; the command line always writes PDB)',
     'D32': 'write_gmx_topology writes ONE itp (from the first molecule) for molecules the caller gave the same moltype name '
            'although their topologies differ; the coordinate file then disagrees with it (nothing checks the names)',
 }
@@ -248,7 +244,7 @@ EXTRA_FILES = (('go', 'go_atomtypes.itp', 'go_nbparams.itp'),
 
 
 def abstract_extra(files):
-    out = {'kind': 'none', 'atomtypes': [], 'nbparams': [], 'malformed': []}
+    out = {'kind': 'none', 'atomtypes': [], 'atparams': [], 'nbparams': [], 'nbvalues': [], 'malformed': []}
     for kind, fa, fn in EXTRA_FILES:
         if fa not in files and fn not in files:
             continue
@@ -258,7 +254,9 @@ def abstract_extra(files):
         pa = indep_readers.read_param_file(files.get(fa, ''))
         pn = indep_readers.read_param_file(files.get(fn, ''))
         out['atomtypes'] += pa['atomtypes']
+        out['atparams'] += pa['atparams']
         out['nbparams'] += pn['nbparams']
+        out['nbvalues'] += pn['nbvalues']
         out['malformed'] += pa['malformed'] + pn['malformed']
         if pa['nbparams'] or pn['atomtypes']:
             out['malformed'].append('directive in the wrong parameter file')
@@ -329,7 +327,7 @@ def read_back(dirpath, files, pdb_name, gro_name):
 
 NO_OPT = {'judged': False, 'go': False, 'sep': False, 'molname': 'molecule', 'chains': [], 'merge': [], 'all': False}
 JUDGE_FIELDS = ('names', 'pdb', 'gro', 'itps', 'top', 'own', 'extra', 'opt', 'rb', 'again', 'hist', 'refused')
-EMPTY_FILES = {'pdb': [], 'gro': [], 'itps': [], 'extra': {'kind': 'none', 'atomtypes': [], 'nbparams': [], 'malformed': []},
+EMPTY_FILES = {'pdb': [], 'gro': [], 'itps': [], 'extra': {'kind': 'none', 'atomtypes': [], 'atparams': [], 'nbparams': [], 'nbvalues': [], 'malformed': []},
                'top': {'includes': [], 'molecules': [], 'defines': [], 'malformed': []}}
 
 
@@ -518,7 +516,8 @@ def _replay_range(job):
             v['order'], v['aid'] = tuple(v['order']), tuple(v['aid'])
         scenario = {'variants': variants, 'dedup': st['dedup'], 'sorted': st['sorted']}
         out['n'] += 1
-        legs = ('gro', 'rb', 'again') if int(_hash(scenario), 16) % 4 == 0 else ('gro', 'rb')
+        h = int(_hash(scenario), 16)
+        legs = ('gro',) + (('rb',) if h % 2 == 0 else ()) + (('again',) if h % 8 == 0 else ())
         try:
             run = run_model_system(variants, st['dedup'], st['sorted'], seed + out['n'], legs)
         except Exception as exc:      # noqa
@@ -538,7 +537,7 @@ def _replay_range(job):
             if out['sample'] is None and len(variants) >= 3 and len(set(names)) == 2:
                 out['sample'] = {'kind': 'Output state replayed', 'scenario': scenario, 'tlc_expected': model_expect(st),
                                  'real_files': run['files']}
-    verdicts, stats = _judge(events)
+    verdicts, stats = _judge(events, workers=1)
     for e, v in zip(events, verdicts):
         if not e['equal_model'] and all(p.startswith(CORE_PREFIXES) for p in parts_of(v)):
             out['deviations'] += 1
@@ -744,7 +743,7 @@ def _random_chunk(args):
             legs[k] += v
         if len(e['names']) >= 2 and len(system_features(None, e['names'], bool(sc['sorted']))) >= 2:
             nontrivial.add(_hash(e['scenario']))
-    verdicts, stats = _judge(events)
+    verdicts, stats = _judge(events, workers=1)
     s = summarise(events, verdicts, stats)
     s['legs'].update(legs)
     return {'summary': s, 'errors': errors, 'nontrivial': nontrivial}
@@ -755,7 +754,9 @@ def _random_chunk(args):
 
 NRES = {'P': 2, 'S': 29, 'H': 43, 'W': 20, 'U': 76, 'L': 1}
 M3 = ['-ff', 'martini3001']
-CONTACT_IDX = ((0, 9), (2, 11), (4, 19), (7, 16), (1, 13), (1, 6), (3, 18), (5, 10))
+# residue index pairs (0-based); those of the beta-sheet peptide are contacts of its generated map (inside the 0.3-1.1 nm window)
+CONTACT_IDX = {'S': ((9, 5), (10, 3), (11, 4), (12, 2), (13, 1), (14, 0), (23, 4), (25, 3), (26, 2), (27, 1), (28, 0)),
+               '*': ((0, 9), (2, 11), (4, 19), (7, 16), (1, 13), (1, 6), (3, 18), (5, 10))}
 
 
 def J(codes, options, labels=None, per=None, common=None, models=None, fmt='pdb', x='cg.pdb', tags=()):
@@ -886,8 +887,9 @@ def contacts_text(chains):
         nums = cli_c03.chain_numbers(ch)
         if len(nums) < 20:
             continue
-        for a, b in CONTACT_IDX:
-            lines.append('R 1 1 XXX %s %d 2 YYY %s %d 6.0 1 0 0 1 0 0 0' % (ch['label'], nums[a], ch['label'], nums[b]))
+        for a, b in CONTACT_IDX.get(ch['code'], CONTACT_IDX['*']):
+            for u, v in ((a, b), (b, a)):          # a contact counts only when both directions are listed
+                lines.append('R 1 1 XXX %s %d 2 YYY %s %d 6.0 1 0 0 1 0 0 0' % (ch['label'], nums[u], ch['label'], nums[v]))
     return '\n'.join(lines) + '\n'
 
 
@@ -901,12 +903,8 @@ def run_cli_job(job):
         options[options.index('CONTACTS')] = 'contacts.out'
     text = cli_c03.build_input(job)
     in_name = 'in.' + job['fmt']
-    state = {}
-
     def on_system(system):
         names = [m.meta.get('moltype', '') for m in system.molecules]
-        state['old'] = any(d.get('_old_resid') is not None and d.get('_old_resid') != d.get('resid')
-                           for m in system.molecules for _, d in m.nodes(data=True))
         return {'names': names, 'own': [own_itp(m, n) for m, n in zip(system.molecules, names)]}
 
     def on_written(root):
@@ -922,8 +920,7 @@ def run_cli_job(job):
     e = event_of(run, origin, opt=opt_of(job), top_name='topol.top', pdb_name=job['x'], gro_name=None)
     e['scenario'] = {'cli': job}
     e['files'] = {k: v for k, v in r['files'].items() if k.endswith('.top')}
-    e['facts'] = {'renumbered': bool(state.get('old')),
-                  'x-holds-pdb-text': job['x'].endswith('.gro') and 'ATOM' in r['files'].get(job['x'], '')}
+    e['facts'] = {'x-holds-pdb-text': job['x'].endswith('.gro') and 'ATOM' in r['files'].get(job['x'], '')}
     return e
 
 
@@ -966,6 +963,8 @@ def cli_features(job, e):
         feats.add('virtual-sites-without-go')
     if e['extra']['nbparams']:
         feats.add('nonbond-params')
+        if e['extra']['kind'] == 'go':
+            feats.add('go-nonbond-params')
     if any(r['k'] == 'section' and r['s'] == 'virtual_sitesn' for f in e['itps'] for r in f['itp']['recs']):
         feats.add('virtual-sites-in-itp')
     w = _wide(e)
@@ -975,8 +974,11 @@ def cli_features(job, e):
         feats.add('residue-name-wider-than-the-pdb-column')
     if any(a['resid'].startswith('-') for m in e['pdb'] for a in m):
         feats.add('negative-residue-number')
-    if '-resid' in job['options'] and job['options'][job['options'].index('-resid') + 1] == 'input' and e['facts']['renumbered']:
-        feats.add('input-numbers-restored')
+    if '-resid' in job['options'] and job['options'][job['options'].index('-resid') + 1] == 'input':
+        total = sum(NRES[ch['code']] for ch in _selected_model(job))
+        nums = [int(r['p'][1]) for f in e['itps'] for r in f['itp']['recs'] if r['k'] == 'atom']
+        if nums and (max(nums) > total or min(nums) < 1):        # numbers no per-molecule numbering from 1 can produce
+            feats.add('input-numbers-restored')
     if any(a['resname'] == 'BEN' for m in e['pdb'] for a in m) and len(e['pdb']) >= 3:
         feats.add('ligand-among-proteins')
     if len(set(own)) < len(own) and len(set(names)) == len(names) and not e['opt']['sep']:
@@ -989,31 +991,47 @@ CLI_MUST = {
               'name-prefix', 'molecule-of-several-chains', 'merge-two-sets', 'all-merged-without-go', 'go-files',
               'virtual-sites-without-go', 'nonbond-params', 'virtual-sites-in-itp', 'residue-number-wider-than-the-pdb-column',
               'residue-name-wider-than-the-pdb-column', 'negative-residue-number', 'input-numbers-restored',
-              'ligand-among-proteins', 'gro-extension', 'models', 'noh', 'ignh', 'gro-input'},
+              'ligand-among-proteins', 'gro-extension', 'models', 'noh', 'ignh', 'gro-input', 'go-nonbond-params'},
 }
 CLI_MUST['thorough'] = CLI_MUST['quick']
 
 
-def _cli_worker(job):
-    """Runs in a freshly forked process: the run, its TLC verdict, a summary (the event itself only when it fails)."""
+def _cli_worker(args):
+    """Runs in a freshly forked process: one real run; the event is parked in a file (the parent keeps only the path)."""
+    job, path = args
     try:
         e = run_cli_job(job)
     except Exception as exc:      # noqa
         return {'error': 'harness: %r' % (exc,), 'origin': {'source': ' '.join(job['options']), 'input': describe_input(job)}}
     if 'error' in e:
         return e
-    verdicts, stats = _judge([e], workers=1)
-    v = verdicts[0]
-    return {'verdict': v, 'tlc': stats, 'features': sorted(cli_features(job, e)), 'facts': e['facts'],
-            'nontrivial': len(e['names']) >= 2 and len(system_features(None, e['names'], False)) >= 2,
-            'hash': _hash(e['scenario']), 'event': e if v != 'ok' else None,
-            'brief': {'run': e['origin']['source'], 'input': e['origin']['input'], 'names': e['names'],
-                      'top_molecules': e['top']['molecules'], 'includes': e['top']['includes'], 'defines': e['top']['defines'],
-                      'extra': {'kind': e['extra']['kind'], 'atomtypes': len(e['extra']['atomtypes']),
-                                'distinct_atomtypes': len(set(e['extra']['atomtypes'])), 'nbparams': len(e['extra']['nbparams'])},
-                      'atoms': [len(m) for m in e['pdb']], 'read_back_errors': e.get('rb_errors', []), 'verdict': v},
-            'sample': {'kind': 'martinize2 run judged by TLC', 'origin': e['origin'], 'names': e['names'], 'top': e['top'],
-                       'pdb_first_molecule': e['pdb'][0][:6], 'verdict': v}}
+    e['features'] = sorted(cli_features(job, e))
+    with open(path, 'w') as fh:
+        json.dump(common.jsonable(e), fh)
+    return {'path': path}
+
+
+def _cli_judge(paths):
+    """One TLC process on a share of the parked command-line events -> per event a summary (the event only if it fails)."""
+    events = []
+    for path in paths:
+        with open(path) as fh:
+            events.append(json.load(fh))
+        os.remove(path)
+    verdicts, stats = _judge(events, workers=1)
+    out = []
+    for e, v in zip(events, verdicts):
+        out.append({'verdict': v, 'features': e['features'], 'facts': e['facts'],
+                    'nontrivial': len(e['names']) >= 2 and len(system_features(None, e['names'], False)) >= 2,
+                    'hash': _hash(e['scenario']), 'event': e if v != 'ok' else None,
+                    'brief': {'run': e['origin']['source'], 'input': e['origin']['input'], 'names': e['names'],
+                              'top_molecules': e['top']['molecules'], 'includes': e['top']['includes'], 'defines': e['top']['defines'],
+                              'extra': {'kind': e['extra']['kind'], 'atomtypes': len(e['extra']['atomtypes']),
+                                        'distinct_atomtypes': len(set(e['extra']['atomtypes'])), 'nbparams': len(e['extra']['nbparams'])},
+                              'atoms': [len(m) for m in e['pdb']], 'read_back_errors': e.get('rb_errors', []), 'verdict': v},
+                    'sample': {'kind': 'martinize2 run judged by TLC', 'origin': e['origin'], 'names': e['names'], 'top': e['top'],
+                               'pdb_first_molecule': e['pdb'][0][:6], 'verdict': v}})
+    return out, stats
 
 
 # ----------------------------------------------------------------------------------------------------------------
@@ -1120,20 +1138,36 @@ def run(tier, seed, ev, vd):
         'chain groups in input order, -go = one molecule named by -name) go beyond the statement and are named separately',
         'caller-named systems: one name for molecules with different topologies can only be honoured by refusing to write',
     ]
-    with mp.Pool(tlc.NCPU) as pool:
-        jobs = []
-        for ui, (uni, maxmols) in enumerate(universes(tier, seed)):
-            res = tlc.run('Output', CFG, consts=consts_of(uni, maxmols), dump=True, timeout=2400)
-            if res.violated:
-                raise tlc.MachineryError('Output model (universe %d) violates %s' % (ui, res.violated))
-            ev.add_tlc('MC Output universe %d (%d variants, <= %d molecules)' % (ui, len(uni), maxmols), res)
-            nparts = tlc.NCPU if quick else tlc.NCPU * 2
-            jobs += [(p, lo, hi, seed * 1000 + i * 100000, ui) for i, (p, lo, hi) in enumerate(_dump_ranges(res.dump_path, nparts))]
-        nrand = 640 if quick else 16000
-        nchunks = tlc.NCPU if quick else tlc.NCPU * 4
-        rand_async = pool.map_async(_random_chunk, [(nrand // nchunks, seed * 6151 + i) for i in range(nchunks)])
-        outs = pool.map(_replay_range, jobs, chunksize=1)
-        rand_parts = rand_async.get()
+    jobs = []
+    for ui, (uni, maxmols) in enumerate(universes(tier, seed)):
+        res = tlc.run('Output', CFG, consts=consts_of(uni, maxmols), dump=True, timeout=2400)
+        if res.violated:
+            raise tlc.MachineryError('Output model (universe %d) violates %s' % (ui, res.violated))
+        ev.add_tlc('MC Output universe %d (%d variants, <= %d molecules)' % (ui, len(uni), maxmols), res)
+        nparts = tlc.NCPU // 2 if quick else tlc.NCPU
+        jobs += [(p, lo, hi, seed * 1000 + i * 100000, ui) for i, (p, lo, hi) in enumerate(_dump_ranges(res.dump_path, nparts))]
+    nrand = 640 if quick else 16000
+    nchunks = tlc.NCPU // 2 if quick else tlc.NCPU * 4
+    cjobs = cli_jobs(tier, seed)
+    park = tempfile.mkdtemp(prefix='c03cli_events_')
+    # ONE pool, a fresh process per task (a command-line run must not inherit the module state of another one); the
+    # command-line runs go first (longest), their TLC shards are queued as soon as all of them have returned
+    try:
+        with mp.Pool(tlc.NCPU, maxtasksperchild=1) as pool:
+            cli_async = [pool.apply_async(_cli_worker, ((job, os.path.join(park, 'ev%04d.json' % i)),)) for i, job in enumerate(cjobs)]
+            tab_async = pool.map_async(_replay_range, jobs, chunksize=1)
+            rand_async = pool.map_async(_random_chunk, [(nrand // nchunks, seed * 6151 + i) for i in range(nchunks)], chunksize=1)
+            ran = [a.get() for a in cli_async]
+            for r in ran:
+                if 'error' in r:
+                    raise tlc.MachineryError('martinize2 run failed (%s): %s' % (r['origin'], r['error']))
+            shards = common.chunks([r['path'] for r in ran], 4 if quick else tlc.NCPU)
+            judged_async = pool.map_async(_cli_judge, shards, chunksize=1)
+            outs = tab_async.get()
+            rand_parts = rand_async.get()
+            judged = judged_async.get()
+    finally:
+        shutil.rmtree(park, ignore_errors=True)
     # --- TAB
     nsys = 0
     for ui in sorted({o['universe'] for o in outs}):
@@ -1188,19 +1222,14 @@ def run(tier, seed, ev, vd):
                         'legs': rnd['legs'], 'clauses_failed': rnd['counts']})
     report(rnd, ev, vd, 'random system')
     # --- the command line
-    jobs = cli_jobs(tier, seed)
-    with mp.Pool(min(len(jobs), tlc.NCPU), maxtasksperchild=1) as pool:
-        cli = pool.map(_cli_worker, jobs, chunksize=1)
+    cli = [r for part, _ in judged for r in part]
     feats = set()
     kept, counts = {}, {}
-    dist = gen = 0
-    wall = 0.0
+    dist, gen = sum(st[0] for _, st in judged), sum(st[1] for _, st in judged)
+    wall = max(st[2] for _, st in judged)
     observations = {'x-holds-pdb-text': 0, 'atom-type-declared-more-than-once': 0}
-    for job, r in zip(jobs, cli):
-        if 'error' in r:
-            raise tlc.MachineryError('martinize2 run failed (%s): %s' % (r['origin'], r['error']))
+    for r in cli:
         feats.update(r['features'])
-        dist, gen, wall = dist + r['tlc'][0], gen + r['tlc'][1], max(wall, r['tlc'][2])
         if r['nontrivial']:
             ev.nontrivial.add(r['hash'])
         observations['x-holds-pdb-text'] += bool(r['facts']['x-holds-pdb-text'])
@@ -1215,7 +1244,7 @@ def run(tier, seed, ev, vd):
     ev.transitions += gen
     ev.traces += len(cli)
     ev.evaluations += len(cli)
-    ev.tlc_runs.append({'run': 'TRACE Trace_Output on martinize2 runs (one TLC process per run)', 'events': len(cli),
+    ev.tlc_runs.append({'run': 'TRACE Trace_Output on martinize2 runs (judged in shards by worker processes)', 'events': len(cli),
                         'distinct_states': dist, 'states_generated': gen, 'wall_s': round(wall, 2), 'clauses_failed': counts})
     for lst in kept.values():
         lst.sort(key=_size)
@@ -1330,7 +1359,8 @@ def selftest(seed):
     e['rb'] = []
     e2 = copy.deepcopy(e)
     case(e, 'extra:virtual-site-type-of-an-itp-atom-not-declared')
-    e2['extra'] = {'kind': 'go', 'atomtypes': [nm + '_7'], 'nbparams': [[nm + '_7', nm + '_8']], 'malformed': []}
+    e2['extra'] = {'kind': 'go', 'atomtypes': [nm + '_7'], 'atparams': [['0.0', '0', 'A', '0.0', '0.0']],
+                   'nbparams': [[nm + '_7', nm + '_8']], 'nbvalues': [['1', '0.5', '9.4']], 'malformed': []}
     case(e2, 'extra:define-GO_VIRT-does-not-go-with-the-go-files')
     e3 = copy.deepcopy(e2)
     e3['top']['defines'] = ['GO_VIRT']
@@ -1338,10 +1368,20 @@ def selftest(seed):
     e4 = copy.deepcopy(e3)
     e4['extra']['nbparams'] = [[nm + '_7', 'W']]
     e4['extra']['atomtypes'].append(nm + '_9')
+    e4['extra']['atparams'].append(['0.0', '0', 'A', '0.0', '0.0'])
     case(e4, 'extra:declared-atom-type-that-no-written-molecule-type-uses')
     e5 = copy.deepcopy(e3)
-    e5['extra']['nbparams'] = [[nm + '_7', 'W']]
-    case(e5, None)
+    e5['extra']['nbparams'] = [[nm + '_7', 'W'], ['W', nm + '_7']]
+    e5['extra']['nbvalues'] = [['1', '0.5', '9.4'], ['1', '0.5', '9.4']]
+    case(copy.deepcopy(e5), None)
+    e5['extra']['nbvalues'][1] = ['1', '0.5', '2.1']                     # the same pair of types with two different strengths
+    case(e5, 'extra:one-pair-of-types-given-different-nonbond-params')
+    e6 = copy.deepcopy(e3)
+    e6['extra']['nbparams'] = []
+    e6['extra']['nbvalues'] = []
+    e6['extra']['atomtypes'].append(nm + '_7')
+    e6['extra']['atparams'].append(['72.0', '0', 'A', '0.0', '0.0'])     # one type declared twice, with different masses
+    case(e6, 'extra:one-atom-type-declared-with-different-parameters')
     # re-naming history: a run in which the partition depends on the order / a shared name without deduplication
     for _ in range(4000):
         sc = random_system_scenario(rng)
